@@ -90,8 +90,10 @@ CONFIG = dict(
         "C14_original_clear_still_expires", "C14_original_aba_expires",
         "C14_late_callback_needs_identity_check", "C14_original_cas_unchanged_notifies",
         "C14_listener_call_sites", "C14_membership_paths_register", "C14_last_leave_closes_room",
-        "C14_listeners_are_members", "C14_listeners_are_members_partial",
-        "C14_room_replica_converges", "C14_room_replica_converges_partial",
+        "C14_room_delete_unregisters", "C14_embedding_sound",
+        "C14_listeners_are_members_of_sound", "C14_listeners_are_members",
+        "C14_room_replica_converges_of_sound", "C14_room_replica_converges",
+        "C14_listeners_are_members_without_delete",
         "C14_room_stores_are_store_runs", "C14_last_leave_must_unregister", "C14_room_delete_keeps_listener"]],
     generated=["Transient"],
     harness=dict(pkg="signaling", test="TestVerifC14", go="go1.26"),
@@ -110,7 +112,7 @@ CONFIG = dict(
          "(ttls armed in a room, then every member leaves / switches room / is closed / the room is deleted, "
          "re-joins, the same keys set in the rooms of now, the old deadlines pass) with random continuation, and "
          "random histories over join / leave / close / client set+remove / bus `transient` request / room delete "
-         "(dedicated cases) / time; per step the outcome, every session's transient messages, its room, every "
+         "by the backend / time; per step the outcome, every session's transient messages, its room, every "
          "room's data, timer keys and registered listeners, and the listeners left on Room objects the hub has "
          "forgotten are compared with the model; the spec judges every session's replica against the data of the "
          "room it is in. Non-trivial: a listener saw an expiry / a late callback was realised / concurrent "
@@ -135,10 +137,7 @@ CONFIG = dict(
                  "for every order of callbacks; not exercised by the harness)",
                  "room level: one Op = one message of a session / one request of the backend processed to quiescence; "
                  "a join or leave racing with another goroutine's use of the same session is not modelled. The "
-                 "spec-level room is the set of sessions in it, its data exists while it has a session",
-                 "room level, open finding C14-room-delete-keeps-listeners: the listener-set theorems for the "
-                 "current source exclude histories in which the backend deletes a room (`…_partial`); the full "
-                 "statements are proved for every source that also unregisters there"],
+                 "spec-level room is the set of sessions in it, its data exists while it has a session"],
 )
 
 MANIFEST = dict(
@@ -155,11 +154,11 @@ MANIFEST = dict(
          "compare-and-set notification) and that the identity check in the callback is necessary. The embedding is "
          "modelled too (room objects with one store each, sessions, the hub's room table; closed room objects keep "
          "their armed timers): for every sequence of joins, leaves, room switches, session closes, client and bus "
-         "requests and passages of time the listener set of every room object's store is exactly the set of "
+         "requests, room deletions by the backend and passages of time the listener set of every room object's store is exactly the set of "
          "sessions in that room object (none for a closed one), every session's replica is the data of the room it "
-         "is in, and every room's store is a run of store operations to which the store theorems apply — for the "
-         "current source on histories without a room deletion by the backend (open finding, proved counter-example), "
-         "in full for every source that unregisters there as well. Tied to the code by extraction (the repaired "
+         "is in, and every room's store is a run of store operations to which the store theorems apply "
+         "(proved witnesses show that unregistering on the last leave and on room "
+         "deletion are both necessary). Tied to the code by extraction (the repaired "
          "places, single critical sections, leaf listener lock, room/hub wiring, every control-flow path of "
          "Room.AddSession / RemoveSession / Close with its register / unregister events, all call sites of "
          "AddListener / RemoveListener) and by a differential run of the real TransientData under virtual time, "
@@ -167,9 +166,9 @@ MANIFEST = dict(
     note="Trusted: Lean kernel, extractor, harness/comparison, testing/synctest, reflect.DeepEqual = token equality. "
          "Atomicity of whole calls rests on extracted lock structure, not on a proof. Found and repaired in /repo: "
          "577dda2 (ttl cleared / replaced still expires, ABA), 48f1c34 (compare-and-set to the stored value notified), "
-         "001c654 (RemoveListener vs. notification lock-order deadlock, reported by the C10 builder). Open: after "
-         "the backend deletes a room its sessions stay listeners of the deleted room's store "
-         "(C14-room-delete-keeps-listeners).",
+         "001c654 (RemoveListener vs. notification lock-order deadlock, reported by the C10 builder), 315a924 (after "
+         "the backend deleted a room its sessions stayed listeners of the deleted room's store, whose pending ttl "
+         "expiries then reached them in other rooms).",
     technique="Lean 4 proof (inductive invariant relating timers, timer map and ideal deadlines; simulation of every "
               "model step by spec events; replica invariant) + regenerated facts + differential correspondence under "
               "virtual time (go1.26 testing/synctest) + spec judge on the implementation's trace",
